@@ -2,6 +2,7 @@
 package props
 
 import (
+	_ "verif/harness/props/c01"
 	_ "verif/harness/props/c07"
 	_ "verif/harness/props/c08"
 	_ "verif/harness/props/c09"
